@@ -110,11 +110,17 @@ SMALL = {
         ], "documentation": "sdoc", "since": "3.0", "sinceTags": ["3.0", "3.1"]},
         {"name": "SB", "properties": [{"name": "k", "type": {"kind": "or", "items": [{"kind": "reference", "name": "EA"}, {"kind": "reference", "name": "EB"}, {"kind": "base", "name": "null"}]}}], "extends": [{"kind": "reference", "name": "SA"}], "mixins": [{"kind": "reference", "name": "SC"}], "proposed": True, "deprecated": "x"},
         {"name": "SC", "properties": []},
+        {"name": "SD", "properties": [
+            {"name": "explicitRequired", "type": {"kind": "base", "name": "string"}, "optional": False},
+            {"name": "explicitStable", "type": {"kind": "base", "name": "boolean"}, "optional": True, "proposed": False},
+            {"name": "emptyDoc", "type": {"kind": "base", "name": "integer"}, "documentation": "", "since": "", "sinceTags": []},
+        ], "proposed": False, "extends": [], "mixins": []},
     ],
     "enumerations": [
         {"name": "EA", "type": {"kind": "base", "name": "string"}, "values": [{"name": "One", "value": "one", "documentation": "vdoc", "since": "3.0", "proposed": True, "deprecated": "d"}, {"name": "Two", "value": "two"}], "supportsCustomValues": True, "documentation": "edoc", "since": "1", "proposed": True, "deprecated": "dd"},
         {"name": "EB", "type": {"kind": "base", "name": "uinteger"}, "values": [{"name": "A", "value": 1}, {"name": "B", "value": 2}]},
-        {"name": "EC", "type": {"kind": "base", "name": "integer"}, "values": [{"name": "N", "value": -1}]},
+        {"name": "EC", "type": {"kind": "base", "name": "integer"}, "values": [{"name": "N", "value": -1}, {"name": "Z", "value": 0, "proposed": False}], "supportsCustomValues": False},
+        {"name": "ED", "type": {"kind": "base", "name": "string"}, "values": [{"name": "Empty", "value": ""}]},
     ],
     "typeAliases": [
         {"name": "AA", "type": {"kind": "base", "name": "string"}, "documentation": "adoc", "since": "3", "proposed": True, "deprecated": "d"},
@@ -134,7 +140,9 @@ def wire_edits(doc, rng, limit):
         d = copy.deepcopy(doc)
         try:
             fn(d)
-        except (IndexError, KeyError):
+        except (IndexError, KeyError, TypeError):
+            return
+        if d == doc:
             return
         out.append((label, d))
 
@@ -170,6 +178,75 @@ def wire_edits(doc, rng, limit):
         ed("notification.method", lambda d, i=i: d["notifications"][i].__setitem__("method", d["notifications"][i]["method"] + "X"))
         ed("notification.direction", lambda d, i=i: d["notifications"][i].__setitem__("messageDirection", "both" if d["notifications"][i]["messageDirection"] != "both" else "serverToClient"))
         ed("notification.params", lambda d, i=i: d["notifications"][i].__setitem__("params", {"kind": "reference", "name": "ZZParams"}))
+    # edits inside type expressions, found by walking every type of the document
+    sites = []
+
+    def walk(t, path):
+        sites.append((t["kind"], path))
+        k = t["kind"]
+        if k == "array":
+            walk(t["element"], path + ["element"])
+        elif k == "map":
+            walk(t["key"], path + ["key"])
+            walk(t["value"], path + ["value"])
+        elif k in ("or", "and", "tuple"):
+            for x, i in enumerate(t["items"]):
+                walk(i, path + ["items", x])
+        elif k == "literal":
+            for x, p in enumerate(t["value"]["properties"]):
+                walk(p["type"], path + ["value", "properties", x, "type"])
+
+    for i, st in enumerate(S):
+        for j, p in enumerate(st["properties"]):
+            walk(p["type"], ["structures", i, "properties", j, "type"])
+    for i, a in enumerate(A):
+        walk(a["type"], ["typeAliases", i, "type"])
+    for i, r_ in enumerate(R):
+        for key in ("params", "result", "partialResult", "registrationOptions", "errorData"):
+            if isinstance(r_.get(key), dict):
+                walk(r_[key], ["requests", i, key])
+
+    def at(d, path):
+        for s_ in path:
+            d = d[s_]
+        return d
+
+    by_kind = {}
+    for k, pth in sites:
+        by_kind.setdefault(k, []).append(pth)
+    pick = lambda k: [by_kind[k][x] for x in sorted(rng.sample(range(len(by_kind[k])), min(limit, len(by_kind[k]))))] if k in by_kind else []
+    extra_alt = {"kind": "reference", "name": "ZZAlternative"}
+    for pth in pick("or"):
+        ed("or.items appended", lambda d, pth=pth: at(d, pth)["items"].append(dict(extra_alt)))
+        ed("or.items last dropped", lambda d, pth=pth: at(d, pth)["items"].pop() if len(at(d, pth)["items"]) > 1 else (_ for _ in ()).throw(KeyError()))
+        ed("or.items first dropped", lambda d, pth=pth: at(d, pth)["items"].pop(0) if len(at(d, pth)["items"]) > 1 else (_ for _ in ()).throw(KeyError()))
+        ed("or.items reversed", lambda d, pth=pth: at(d, pth)["items"].reverse() if at(d, pth)["items"][0] != at(d, pth)["items"][-1] else (_ for _ in ()).throw(KeyError()))
+    for pth in pick("and"):
+        ed("and.items appended", lambda d, pth=pth: at(d, pth)["items"].append(dict(extra_alt)))
+        ed("and.items last dropped", lambda d, pth=pth: at(d, pth)["items"].pop() if len(at(d, pth)["items"]) > 1 else (_ for _ in ()).throw(KeyError()))
+    for pth in pick("tuple"):
+        ed("tuple.items appended", lambda d, pth=pth: at(d, pth)["items"].append({"kind": "base", "name": "string"}))
+        ed("tuple.items last dropped", lambda d, pth=pth: at(d, pth)["items"].pop() if len(at(d, pth)["items"]) > 1 else (_ for _ in ()).throw(KeyError()))
+    for pth in pick("array"):
+        ed("array.element changed", lambda d, pth=pth: at(d, pth).__setitem__("element", {"kind": "array", "element": at(d, pth)["element"]}))
+    for pth in pick("map"):
+        ed("map.value changed", lambda d, pth=pth: at(d, pth).__setitem__("value", {"kind": "array", "element": at(d, pth)["value"]}))
+        ed("map.key changed", lambda d, pth=pth: at(d, pth).__setitem__("key", {"kind": "base", "name": "integer"} if at(d, pth)["key"] != {"kind": "base", "name": "integer"} else {"kind": "base", "name": "string"}))
+    for pth in pick("stringLiteral"):
+        ed("stringLiteral.value changed", lambda d, pth=pth: at(d, pth).__setitem__("value", at(d, pth)["value"] + "x"))
+    for pth in pick("reference"):
+        ed("reference.name changed", lambda d, pth=pth: at(d, pth).__setitem__("name", at(d, pth)["name"] + "X"))
+    for pth in pick("base"):
+        ed("base.name changed", lambda d, pth=pth: at(d, pth).__setitem__("name", "boolean" if at(d, pth)["name"] != "boolean" else "string") if pth[-1] != "key" else (_ for _ in ()).throw(KeyError()))
+    for pth in pick("literal"):
+        ed("literal.property appended", lambda d, pth=pth: at(d, pth)["value"]["properties"].append({"name": "zzNew", "type": {"kind": "base", "name": "string"}}))
+        ed("literal.property dropped", lambda d, pth=pth: at(d, pth)["value"]["properties"].pop() if at(d, pth)["value"]["properties"] else (_ for _ in ()).throw(KeyError()))
+    for i in idxs(S):
+        ed("structure.extends dropped", lambda d, i=i: d["structures"][i]["extends"].pop())
+        ed("structure.mixins dropped", lambda d, i=i: d["structures"][i]["mixins"].pop())
+    for i in idxs(E):
+        ed("enum.entry last dropped", lambda d, i=i: d["enumerations"][i]["values"].pop() if len(d["enumerations"][i]["values"]) > 1 else (_ for _ in ()).throw(KeyError()))
+        ed("enum.entries reversed", lambda d, i=i: d["enumerations"][i]["values"].reverse() if len(d["enumerations"][i]["values"]) > 1 else (_ for _ in ()).throw(KeyError()))
     ed("structure.removed", lambda d: d["structures"].pop())
     ed("structure.order", lambda d: d["structures"].reverse())
     ed("request.removed", lambda d: d["requests"].pop())
@@ -368,6 +445,19 @@ def main(tier):
             for pl in plugins_for(k):
                 jobs.append((k, label, mp, pl))
         stats["gate_faults"] = len(faults)
+        # several model files: the violation may sit in any of them
+        good = os.path.join(root, "good-add.json")
+        json.dump(ADD1, open(good, "w"))
+        goodmain = os.path.join(root, "good-main.json")
+        json.dump(SMALL, open(goodmain, "w"))
+        multi = []
+        for k, (label, d) in enumerate(faults[:6]):
+            mp = os.path.join(root, "fault-%d.json" % k)
+            pl = ["python", "rust", "dotnet", "testdata"][k % 4]
+            multi.append((1000 + k, label + " (first of two files)", [mp, good], pl))
+            multi.append((2000 + k, label + " (last of two files)", [goodmain, mp], pl))
+            multi.append((3000 + k, label + " (middle of three files)", [goodmain, mp, good], pl))
+        jobs += multi
 
         def run(job):
             k, label, mp, pl = job
@@ -379,7 +469,7 @@ def main(tier):
                 os.makedirs(os.path.dirname(p), exist_ok=True)
                 open(p, "w").write(c)
             before = genrun.tree_hashes(outdir)
-            res = genrun.run_generator(pl, root, models=[mp], outdir=outdir, tag="g%d%s" % (k, pl))
+            res = genrun.run_generator(pl, root, models=(mp if isinstance(mp, list) else [mp]), outdir=outdir, tag="g%d%s" % (k, pl))
             after = genrun.tree_hashes(outdir)
             return job, res, before, after
 
